@@ -329,6 +329,13 @@ func (c *Collection) WriteUpdateWithXattrs(
 		if updatedDoc.IsTombstone {
 			deleteBody := previous.Body != nil
 			casOut, err = c.WriteTombstoneWithXattrs(ctx, key, attemptExp, previous.Cas, updatedDoc.Xattrs, updatedDoc.XattrsToDelete, deleteBody, attemptOpts)
+			var missing sgbucket.MissingError
+			if deleteBody && errors.As(err, &missing) {
+				// The document the callback was shown had a body; it has been deleted (or purged) since.
+				// That is a lost race like any CAS mismatch: read again and ask the callback again.
+				previous = nil
+				continue
+			}
 		} else {
 			cas := previous.Cas
 			if previous.IsTombstone {
